@@ -137,7 +137,9 @@ func (c *Crypto) Sign(keys []KeyNum, msg common.Root) common.BLSSignature {
 	c.register(out, keys, msg, true)
 	return out
 }
-func (c *Crypto) Sign1(k KeyNum, msg common.Root) common.BLSSignature { return c.Sign([]KeyNum{k}, msg) }
+func (c *Crypto) Sign1(k KeyNum, msg common.Root) common.BLSSignature {
+	return c.Sign([]KeyNum{k}, msg)
+}
 
 // Info of any signature value met in a message (registers unknown ones as "not made here").
 func (c *Crypto) Info(b common.BLSSignature) *SigInfo {
